@@ -52,7 +52,7 @@ impl LspProject {
                 return Err(result
                     .1
                     .into_iter()
-                    .map(|err| map_diagnostic(err, self.wrapped.as_ref()))
+                    .map(|err| map_diagnostic(err, &file_id, self.wrapped.as_ref()))
                     .collect());
             }
 
@@ -119,7 +119,7 @@ impl LspProject {
                 Err(diagnostics) => diagnostics
                     .into_iter()
                     .filter(|d| d.file_ids().contains(&file_id))
-                    .map(|d| map_diagnostic(d, self.wrapped.as_ref()))
+                    .map(|d| map_diagnostic(d, &file_id, self.wrapped.as_ref()))
                     .collect(),
             };
         } else {
@@ -299,12 +299,27 @@ impl From<LspTokenType> for Option<SemanticToken> {
 }
 
 /// Convert diagnostic type into the LSP diagnostic type.
+///
+/// The diagnostic is for the document having the file ID. A problem can have
+/// labels in more than one file. The position in the document is the position
+/// of a label that is in the document (the position of a label in another
+/// file is not a position in the document).
 fn map_diagnostic(
     diagnostic: ironplc_dsl::diagnostic::Diagnostic,
+    file_id: &FileId,
     project: &dyn Project,
 ) -> lsp_types::Diagnostic {
     let description = diagnostic.description();
-    let range = map_label(&diagnostic.primary, project);
+    let label = if &diagnostic.primary.file_id == file_id {
+        &diagnostic.primary
+    } else {
+        diagnostic
+            .secondary
+            .iter()
+            .find(|label| &label.file_id == file_id)
+            .unwrap_or(&diagnostic.primary)
+    };
+    let range = map_label(label, project);
 
     let code_description = match Url::parse(
         format!(
@@ -323,7 +338,7 @@ fn map_diagnostic(
         code: Some(NumberOrString::String(diagnostic.code)),
         code_description,
         source: Some("ironplc".into()),
-        message: format!("{}: {} ", description, diagnostic.primary.message),
+        message: format!("{}: {} ", description, label.message),
         related_information: None,
         tags: None,
         data: None,
